@@ -267,6 +267,11 @@ def const_subscripts_ok(stmts, cur, lists):
                 ex(x)
     for s in stmts:
         ex(s)
+        if s[0] == "uvec":
+            # documented precondition: all vectors of the same (non-zero) size
+            sizes = set(len(cur[n]) for n in s[1])
+            if len(sizes) != 1 or 0 in sizes:
+                ok[0] = False
     return ok[0]
 
 
@@ -434,7 +439,7 @@ def body(case, acc):
 
 
 def shards(tier):
-    return [{"i": i, "n": 130 if tier == "quick" else 4000} for i in range(16)]
+    return [{"i": i, "n": 90 if tier == "quick" else 2500} for i in range(16)]
 
 
 def run_shard(spec, seed, tier, acc):
